@@ -348,3 +348,85 @@ func TestReplayIsDeterministic(t *testing.T) {
 		}
 	}
 }
+
+// check-then-act on an atomic flag: both vthreads can read false before either stores true. The
+// exploration must reach that outcome although every single operation is atomic — history-key pruning
+// must keep apart the executions in which the load observed different stores.
+func TestAtomicCheckThenActIsExplored(t *testing.T) {
+	_, o := outcomes(t, func() string {
+		flag := new(int) // identity only
+		val := false
+		wins := 0
+		done := MakeChan[int](2)
+		for i := 0; i < 2; i++ {
+			Go(func() {
+				AtomicRead(flag)
+				seen := val
+				if !seen {
+					AtomicWrite(flag, true)
+					val = true
+					wins++
+				}
+				done.Send(1)
+			})
+		}
+		done.Recv()
+		done.Recv()
+		return fmt.Sprint(wins)
+	})
+	if o != "1,2" {
+		t.Fatal("both outcomes of a check-then-act on an atomic must be reachable, got ", o)
+	}
+}
+
+// a compare-and-swap has exactly one winner under every schedule
+func TestAtomicCASHasOneWinner(t *testing.T) {
+	_, o := outcomes(t, func() string {
+		flag := new(int)
+		val := false
+		wins := 0
+		done := MakeChan[int](2)
+		for i := 0; i < 2; i++ {
+			Go(func() {
+				AtomicRead(flag)
+				if !val {
+					AtomicWrite(flag, false)
+					val = true
+					wins++
+				}
+				done.Send(1)
+			})
+		}
+		done.Recv()
+		done.Recv()
+		return fmt.Sprint(wins)
+	})
+	if o != "1" {
+		t.Fatal(o)
+	}
+}
+
+// what a critical section reads depends on who held the mutex before: both orders must be explored to
+// their terminal states (the locker's history contains the identity of the previous unlock)
+func TestMutexOrderIsObservable(t *testing.T) {
+	_, o := outcomes(t, func() string {
+		var mu Mutex
+		x := 1
+		done := MakeChan[int](2)
+		for i := 1; i <= 2; i++ {
+			i := i
+			Go(func() {
+				mu.Lock()
+				x = x*3 + i
+				mu.Unlock()
+				done.Send(1)
+			})
+		}
+		done.Recv()
+		done.Recv()
+		return fmt.Sprint(x)
+	})
+	if o != "14,16" {
+		t.Fatal(o)
+	}
+}
